@@ -928,7 +928,8 @@ def oracle(ctx: Ctx, sc: dict, tr: dict, stats: dict | None = None) -> None:
                 if seen and b["t"] < seen[-1]["t0"] + cfg["idle"]:
                     what = (f"timer {hid}: run at {b['t']} within idle={cfg['idle']} after the essential change seen at {seen[-1]['t0']}")
                     rt_ = reset_time(seen[-1])
-                    if (seen[-1].get("t1") is None or b["t"] <= seen[-1]["t1"]) and (rt_ is None or rt_ >= b["t"]):
+                    if rt_ is None or (rt_ >= b["t"] and (seen[-1].get("t1") is None or b["t"] <= seen[-1]["t1"])):
+                        # (rt_ None: the cycle was cancelled inside its on.event handlers — operator stopping — and never stamped)
                         # the change was received, but its cycle had not reached process_spawning_cause yet (open finding C10-F2)
                         ctx.oracle_fail(what + f" (its processing cycle reset idling only at {rt_})",
                                         {"scenario": sc, "uid": uid, "id": hid, "call": b, "change": seen[-1]["t0"]}, F2_SIG)
